@@ -25,6 +25,9 @@ def generate(chk, variant, tier=None):
                 out.append(g)
     if len(out) < 1000:
         raise vlib.Inconclusive("too few DTLS 1.3 scripts for %s" % variant)
+    if (tier or chk.tier) == "quick" and len(out) > 30000:   # the quick tier replays a seeded sample of the edges
+        import random
+        out = random.Random(chk.seed).sample(out, 30000)
     return out
 
 
